@@ -440,7 +440,7 @@ def parts(tier):
           hyp_part("random", make_random, int(n * 0.1)),
           hyp_part("rational", make_rational, int(n * 0.15)), hyp_part("partials", make_partials, int(n * 0.2)),
           hyp_part("big", make_big, big)]
-    fz = int(os.environ.get("VERIF_FUZZ_RUNS", "0" if tier == "quick" else "320000"))
+    fz = int(os.environ.get("VERIF_FUZZ_RUNS", "0" if tier == "quick" else "160000"))
     if fz:
         ps.append(fuzz_part("fuzz-redex", ID, "make_redex", fz // 2))
         ps.append(fuzz_part("fuzz-random", ID, "make_random", fz // 2))
